@@ -41,7 +41,8 @@ RULE = ("scenario = (tree key, waiting-area cap, forest shape {chain, star, rand
         "token.verify(key) calls; loaded trees: elements written by _append without checks (forged/foreign/dangling "
         "elements with signed tokens behind them) then verify/get_root_path of every token; token forms built by "
         "from_database_tuple with right/wrong content; re-signed twins (ECDSA keys); small-scope enumeration: all "
-        "shapes x all permutations, plain and with one extra bad/duplicate item")
+        "shapes x all permutations, plain and with one extra bad/duplicate item; offered objects whose content field "
+        "holds foreign bytes (first arrivals and duplicates of stored tokens)")
 TRUSTED_BASE = [
     "hand-written Lean model of tokentree/tree.py, token.py, signed_object.py (Ipv8/C16/Model.lean), tied to the code by "
     "the correspondence run; tools/gen_c16.py (AST extraction of five constants) for GenConst.lean",
@@ -317,19 +318,20 @@ def make_scenario(rng, size_class: str | None = None) -> dict:
     arr = arrival(rng, toks, parents, order)
     ops = []
     for i in arr:
-        form = rng.choice(["pub", "pub", "full", "hash", "dbgood", "dbbad"]) if toks[i]["content"] is not None \
-            else rng.choice(["hash", "dbbad"])
+        form = rng.choice(["pub", "pub", "full", "hash", "dbgood", "dbbad", "fullbad"]) if toks[i]["content"] is not None \
+            else rng.choice(["hash", "dbbad", "fullbad"])
         ops.append(["gather", i, form])
         r = rng.random()
-        if r < 0.12:    # duplicate, maybe in another form, now or later
+        if r < 0.2:     # duplicate, maybe in another form (with real or with foreign content), now or later
             j = rng.choice(arr)
-            f2 = rng.choice(["pub", "full"]) if toks[j]["content"] is not None else "hash"
+            f2 = rng.choice(["pub", "full", "full", "fullbad", "fullbad"]) if toks[j]["content"] is not None \
+                else rng.choice(["hash", "fullbad"])
             ops.append(["gather", j, f2])
-        elif r < 0.18:
+        elif r < 0.26:
             ops.append(["verify", rng.randrange(len(toks)), rng.choice([1000, 1000, 1, 2, 3, 0, -1, n, n + 1])])
-        elif r < 0.22:
+        elif r < 0.30:
             ops.append(["path", rng.randrange(len(toks)), rng.choice([1000, 1000, 1, 2, 3, 0, -1, n, n + 1])])
-        elif r < 0.25:
+        elif r < 0.33:
             ops.append(["missing"])
     ops += closing_ops(rng, toks, n)
     return {"key": keyhex, "fkey": fkeyhex, "keytype": keytype, "cap": cap, "shape": shape, "order": order,
@@ -356,6 +358,7 @@ class Run:
         self.toks = list(sc["tokens"])
         self.hid = [tk_hid(t) for t in self.toks]
         self.own_objs: list = []
+        self.pre_contents: dict = {}
         self.lines: list[str] = []
         self.impl: list[str] = []
         self.registered_h: set[bytes] = set()
@@ -402,6 +405,9 @@ class Run:
         self.reg_h(prev + chash + sig)
         self.reg_v(prev + chash, sig)
 
+    def claimed(self, i: int) -> bytes:
+        return b"relay-claims-%d" % i
+
     def db_content(self, i: int, form: str):
         """the content column of the database row used for forms dbgood / dbbad / dbnone"""
         t = self.toks[i]
@@ -413,7 +419,7 @@ class Run:
 
     def name(self, i: int, form: str) -> str:
         t = self.toks[i]
-        nm = f"t{i}{form[0] if not form.startswith('db') else form}"
+        nm = f"t{i}{form[0] if not (form.startswith('db') or form == 'fullbad') else form}"
         if self.with_lines and nm not in self.named:
             self.named.add(nm)
             prev, chash, sig = (bytes.fromhex(t[k]) for k in ("prev", "chash", "sig"))
@@ -432,6 +438,9 @@ class Run:
             if form == "full":
                 content = hx(bytes.fromhex(t["content"]))
                 self.reg_h(bytes.fromhex(t["content"]))
+            elif form == "fullbad":
+                content = hx(self.claimed(i))
+                self.reg_h(self.claimed(i))
             self.line(f"tok {nm} {hx(prev)} {hx(chash)} {hx(sig)} {content}", "ok")
         return nm
 
@@ -444,6 +453,10 @@ class Run:
             return Token.unserialize(prev + chash + sig, self.pub)
         if form == "full":
             return Token(prev, content=bytes.fromhex(t["content"]), signature=sig)
+        if form == "fullbad":      # a relay's claim: the content field is covered by neither hash nor signature
+            o = Token.unserialize(prev + chash + sig, self.pub)
+            o.content = self.claimed(i)
+            return o
         if form.startswith("db"):
             c = self.db_content(i, form)
             o = Token.from_database_tuple(prev, sig, chash, c)
@@ -518,7 +531,10 @@ class Run:
                 self.fail("TokenTree.gather_token:unconnected-token-accepted",
                           f"{where}: element {id8(k)} is not connected to genesis through offered valid tokens")
                 return
-            if v.content is not None and sha3(v.content) != v.content_hash:
+            if v.content is not None and sha3(v.content) != v.content_hash and \
+                    v.content not in self.pre_contents.get(k, ()):
+                # (an offered object that carried foreign content when it became the element is the caller's doing;
+                #  content that got there any other way was attached by the tree)
                 self.fail("Token.receive_content:unbound-content",
                           f"{where}: element {id8(k)} carries content {v.content!r} that does not hash to its content pointer")
                 return
@@ -603,7 +619,24 @@ class Run:
                     tok = self.obj(i, form)
                     nm = self.name(i, form)
                     self.offered.append(self.toks[i])
+                    stored_before = tree.elements.get(self.hid[i])
+                    empty_before = stored_before is not None and stored_before.content is None
+                    if stored_before is None:       # an object that may itself become the element, content included
+                        self.pre_contents.setdefault(self.hid[i], set()).add(tok.content)
+                    carried = tok.content
+                    if carried is not None:
+                        self.ctx.count("offer-carries:%s:%s" % (
+                            "bound" if sha3(carried) == tok.content_hash else "foreign-content",
+                            "already-stored" if stored_before is not None else "not-stored"))
                     res = tree.gather_token(tok)
+                    if empty_before and carried is not None and self.toks[i]["good"]:
+                        now = tree.elements[self.hid[i]].content
+                        want = carried if sha3(carried) == bytes.fromhex(self.toks[i]["chash"]) else None
+                        if now != want:
+                            self.fail("TokenTree.gather_token:content-handover",
+                                      f"op {n}: a duplicate carrying {'bound' if want is not None else 'foreign'} content "
+                                      f"{carried!r} was offered for the stored, content-less token {id8(self.hid[i])}; "
+                                      f"the stored token now holds {now!r}")
                     k = "none" if res is None else ("added" if res is tok else "shadow")
                     self.ctx.count(f"gather:{k}")
                     self.ctx.count(f"offered:{self.toks[i]['label']}")
@@ -770,6 +803,7 @@ class Run:
                             self.line(f"new {capw(sc['cap'])}", "ok")
                             self.line(f"unser {hx(sb)}", f"{'true' if ok2 else 'false'} {self.state(t2)}")
                             tree = t2
+                            self.pre_contents = {}
                             self.check_invariants(tree, "after reload of serialize_public(up_to=<not an element>)")
                             continue
                         tok = self.obj(i, "hash")
@@ -798,6 +832,7 @@ class Run:
                     # the reloaded tree replaces the current one (the driver holds a single tree)
                     self.offered = [t for t in self.offered if tk_hid(t) in expect_keys] if not overflow_possible else self.offered
                     tree = tree2
+                    self.pre_contents = {}
                     self.check_invariants(tree, f"after {kind}")
                 elif kind == "unser_mut":
                     _, how, mseed, fresh = op
@@ -835,6 +870,8 @@ class Run:
                                       f"unserialize_public returned True although chunks {lost} did not become elements "
                                       f"({how} bytes)")
                     tree = target
+                    if fresh:
+                        self.pre_contents = {}
                     self.check_invariants(tree, f"after unserialize_public of {how} bytes")
                     if flag == "error" and len(s) % self.chunk == 0:
                         self.fail("TokenTree.unserialize_public:raises", "struct.error on a whole number of chunks")
@@ -1450,7 +1487,7 @@ def forest_shapes(n: int):
     return out
 
 
-EXTRA_KINDS = ["forged-sig", "foreign", "dangling", "duplicate", "wrong-content"]
+EXTRA_KINDS = ["forged-sig", "foreign", "dangling", "duplicate", "duplicate-foreign-content", "wrong-content"]
 _BUILD_KIND = {"forged-sig": "forged-sig", "foreign": "foreign", "dangling": "dangling", "wrong-content": "forged-chash"}
 
 
@@ -1484,6 +1521,10 @@ def run_exhaustive(ctx: Ctx, sizes, use_model: bool, extra_kinds=None, tag="plai
                     items = [(i, rng.choice(["pub", "full", "hash"])) for i in range(n)]
                     if kind == "duplicate":
                         items.append((rng.randrange(n), "full"))
+                    elif kind == "duplicate-foreign-content":
+                        j = rng.randrange(n)
+                        items[j] = (j, "pub")
+                        items.append((j, "fullbad"))
                     else:
                         items.append((n, "hash" if toks[n]["content"] is None else rng.choice(["pub", "full"])))
                     ctx.count(f"exhaustive:{tag}:extra:{kind}")
@@ -1578,7 +1619,7 @@ def run(ctx: Ctx):
     run_loaded(ctx, ctx.scale(150, 1200), ctx.model_ok)
     run_own(ctx, ctx.scale(150, 1000), ctx.model_ok)
     run_multi(ctx, ctx.scale(250, 2000), ctx.model_ok)
-    run_random(ctx, ctx.scale(500, 3000), ctx.scale(3, 5), ctx.model_ok)
+    run_random(ctx, ctx.scale(400, 3000), ctx.scale(3, 5), ctx.model_ok)
 
 
 def search(ctx: Ctx, reason: str):
